@@ -31,7 +31,8 @@ LEVEL = "fault_enumeration"
 DAY0 = dt.date(2031, 3, 14)
 RULE = (
     "for each scenario (create with new notes on several pages; reindex with an edited and a new note; reindex with two "
-    "changed pages sharing a tag; create over an existing index; thorough: further seeded scenarios) EVERY boundary between "
+    "changed pages sharing a tag; create over an existing index; reindex with brand-new, edited and deleted pages; thorough: "
+    "further seeded scenarios) EVERY boundary between "
     "consecutive external effects of the uninterrupted run is a crash point: crash (os._exit before the effect, in a "
     "subprocess), rerun the same command in a new process, judge, rerun for the fixpoint; thorough also truncates every "
     "file write to 1/3 and 2/3. distinct = distinct (scenario, effect kind and target at the crash point, torn fraction); "
@@ -52,7 +53,7 @@ ZID_RE = re.compile(r"\b\d{6}#[0-9A-Za-z]{2,3}\b")
 
 
 def plan(tier: str, seed: int) -> list[dict]:
-    scen = ["create_new", "reindex_edit_new", "reindex_shared_tag", "recreate"]
+    scen = ["create_new", "reindex_edit_new", "reindex_shared_tag", "recreate", "reindex_new_page"]
     if tier == "thorough":
         scen += [f"rand{i}" for i in range(16)]
     shards = 4 if tier == "quick" else 6
@@ -75,7 +76,7 @@ def build_scenario(name: str, seed: int, root: Path):
         _write(root, "sub/b.zo", "# B [[a]]\n\n- b new +shared\n- 240102#Cd has zid [[a#s]]\n\n~ P2 cancelled new\n")
         _write(root, "c.zo", "# C\n\n< blocked new #t1\n> parent new\n  * bullet\n    - deeper\n")
         return ["db", "create"], day
-    if name in ("reindex_edit_new", "reindex_shared_tag", "recreate"):
+    if name in ("reindex_edit_new", "reindex_shared_tag", "recreate", "reindex_new_page"):
         _write(root, "a.zo", "# A #pa\n\n- 240101#Aa note one +only_here\no P1 240101#Ab todo two\n  * k:: v w\n\n################################ S1 @c1\n- 240101#Ac old note\n- 310301 240101#Ad stamped before\n")
         _write(root, "sub/b.zo", "# B [[a]]\n\n- 240102#Ba b one +shared\n- 240102#Bb has link [[a#s]]\n\n~ P2 240102#Bc cancelled\n")
         _write(root, "c.zo", "# C\n\n< 240103#Ca blocked #t1 +shared\n")
@@ -88,6 +89,14 @@ def build_scenario(name: str, seed: int, root: Path):
             (root / "a.zo").write_text(t)
             t = (root / "sub/b.zo").read_text().replace("- 240102#Bb", "- brand new note without zid\n- 240102#Bb")
             (root / "sub/b.zo").write_text(t)
+            return ["db", "reindex"], day
+        if name == "reindex_new_page":
+            # a brand-new page (not yet in file_hash.json) next to an edited one and a deleted one
+            _write(root, "b_new.zo", "# Brand new page +shared\n\n- new one\no P2 new two #t1\n- 240104#Na already has a zid\n")
+            _write(root, "sub/z_new.zo", "# Another new page\n\n- 240105#Nb only zids here\n")
+            t = (root / "a.zo").read_text().replace("todo two", "todo two edited")
+            (root / "a.zo").write_text(t)
+            (root / "c.zo").unlink()
             return ["db", "reindex"], day
         if name == "reindex_shared_tag":
             # the tag used by exactly one note is removed and reintroduced in the same run
@@ -113,7 +122,15 @@ def build_scenario(name: str, seed: int, root: Path):
     ctx = hg.Ctx(rng)
     for _ in range(rng.randint(1, 4)):
         p = rng.choice(hg.zo_files(root))
-        op = rng.choice(["edit_body", "add_note", "change_kind", "edit_bullet", "delete_note", "add_note_zid"])
+        op = rng.choice(["edit_body", "add_note", "change_kind", "edit_bullet", "delete_note", "add_note_zid", "add_page", "delete_page"])
+        if op == "add_page":
+            o2 = pg.GenOpts(max_items=2, max_blocks=1, allow_mod_without_zid=False, p_zid=0.5, zid_registry=opts.zid_registry)
+            _write(root, rng.choice(["", "sub/"]) + f"added{rng.randint(0, 99)}.zo", pg.render(pg.PageGen(rng, o2).page())[0])
+            continue
+        if op == "delete_page":
+            if len(hg.zo_files(root)) > 1:
+                p.unlink()
+            continue
         new = hg.PAGE_OPS[op](p.read_text(), ctx, day)
         if new is not None:
             p.write_text(new)
